@@ -194,7 +194,7 @@ func (r *Run) ChooseWith(n int, label string, gen func(*Rng) int) int {
 	if n <= 1 {
 		return 0
 	}
-	if r.multi.Load() {
+	if r.cur != nil && r.multi.Load() {
 		harnessPanic("Choose(%s) while more than one task may be running", label)
 	}
 	var v int
@@ -269,7 +269,7 @@ func (r *Run) Failed() bool { return r.Viol != nil }
 
 // Go creates a task. It may be called from the driver goroutine or from the one running task.
 func (r *Run) Go(name string, f func(t *Task)) *Task {
-	if r.multi.Load() {
+	if r.cur != nil && r.multi.Load() {
 		harnessPanic("Go(%s) while more than one task may be running", name)
 	}
 	t := &Task{Name: name, r: r, resume: make(chan struct{}, 1), state: stParked, label: "start"}
